@@ -55,8 +55,22 @@ Section C08.
   Theorem C08_gaussian_sampler_in_bounds : forall sp, wfs fm fl eps sp -> forall mean sd tape, inb fm fl eps sp mean ->
     (need fm fl eps sp <= length tape)%nat -> inb fm fl eps sp (fst (g_sample_gauss A Rdiv sp mean sd tape)).
   Proof. intros sp Hw mean sd tape H1 H2. apply (sample_gauss_inb fm fl eps fl_integral fm_range fm_small fm_cong sp Hw mean sd tape H1 H2). Qed.
+  (* the RNG's range functions: uniformInt(lo, hi) in {lo..hi} for a variate in [0,1); halfNormalReal(r_min, r_max, focus) in
+     [r_min, r_max] and halfNormalInt in {r_min..r_max} for every normal variate and every focus *)
+  Theorem C08_rng_uniform_int_range : forall lo hi u (nl nh : Z), lo = IZR nl -> hi = IZR nh -> lo <= hi -> unit01 u ->
+    lo <= uniform_int A lo hi u <= hi /\ exists n, uniform_int A lo hi u = IZR n.
+  Proof. exact (uniform_int_facts fm fl eps fl_int fl_mono fl_integral). Qed.
+  Theorem C08_rng_half_normal_real_range : forall rmin rmax focus g, rmin <= rmax ->
+    rmin <= half_normal_real A Rdiv rmin rmax focus g <= rmax.
+  Proof. exact (half_normal_real_range fm fl eps). Qed.
+  Theorem C08_rng_half_normal_int_range : forall rmin rmax focus g (nl nh : Z), rmin = IZR nl -> rmax = IZR nh -> rmin <= rmax ->
+    rmin <= half_normal_int A Rdiv rmin rmax focus g <= rmax /\ exists n, half_normal_int A Rdiv rmin rmax focus g = IZR n.
+  Proof. exact (half_normal_int_range fm fl eps fl_int fl_mono fl_integral). Qed.
 End C08.
 
+Print Assumptions C08_rng_uniform_int_range.
+Print Assumptions C08_rng_half_normal_real_range.
+Print Assumptions C08_rng_half_normal_int_range.
 Print Assumptions C08_enforce_bounds.
 Print Assumptions C08_enforce_idempotent.
 Print Assumptions C08_so2_enforce_same_rotation.
